@@ -632,6 +632,15 @@ def cspell(sp):
 
 IMPORTS = "From Coq Require Import String.\nFrom Verif Require Import Dispatch S_dispatch C17Judge.\nOpen Scope string_scope."
 
+AGREE_WHAT = {1: "spellings that the model resolves to the SAME code give different outcomes",
+              2: "two code paths return the same content in different array types",
+              3: "a spelling reaches an abstract stub (returns None)",
+              4: "a namespace function converts its receiver to another format first",
+              5: "the spellings raise different exception classes", 6: "spellings reach different code and differ in array type",
+              7: "observed outcome kind contradicts the model's resolution", 8: "method spelling is sparse, another spelling is not",
+              9: "spelling outside the generated class", 10: "the method/attribute does not exist on this format",
+              11: "the wrapper accepts a parameter it does not forward",
+              12: "two code paths for the same operation return different CONTENT (values, nnz, stored coordinates)"}
 AGREE_CLAUSE = {1: (None, "value"), 2: ("two_algorithm_paths_disagree", "value"),
                 3: (None, "value"), 4: (None, "value"),
                 5: ("unsupported_op_exception_class_differs", "value"), 6: ("spellings_reach_different_code", "value"),
@@ -953,7 +962,7 @@ def campaign(build, tier, seed, report, budget=1):
         clause, kind = AGREE_CLAUSE[code]
         outs = res[i]["out"]
         viol.append({"property": "C17", "op": label, "kind": kind, "clause": clause, "format": CLS_OF[fmt[0]],
-                     "judge_code": code, "variant": tag,
+                     "judge_code": code, "variant": tag, "what": AGREE_WHAT.get(code, ""),
                      "case": {"format": fmt, "calls": [(_show_call(*c)) for c in calls]},
                      "impl": [(o[0], o[1][:160]) for o in outs],
                      "replay_py": _replay(calls)})
